@@ -53,6 +53,22 @@ impl SrcBuilder<'_> {
         let reduce_fn_prefix = create_unique_identifier("reduce", used_identifiers);
         let action_table_name = create_unique_identifier("ACTION_TABLE", used_identifiers);
         let goto_table_name = create_unique_identifier("GOTO_TABLE", used_identifiers);
+        #[cfg(feature = "verif")]
+        crate::verif::record(|| {
+            crate::verif::Event::FreshNames(vec![
+                eof_variant_name.clone(),
+                quasiterminal_enum_name.clone(),
+                quasiterminal_kind_enum_name.clone(),
+                nonterminal_kind_enum_name.clone(),
+                state_enum_name.clone(),
+                node_enum_name.clone(),
+                action_enum_name.clone(),
+                rule_kind_enum_name.clone(),
+                reduce_fn_prefix.clone(),
+                action_table_name.clone(),
+                goto_table_name.clone(),
+            ])
+        });
 
         let node_to_terminal_method_names: HashMap<DollarlessTerminalName, String> = file
             .terminal_enum
